@@ -2,6 +2,11 @@
 """C08 - stringify o parse is the identity on trees; the text is valid JSON.
 
 (P) QJsonGrammar (the independent reading of the text) + Norm (Undefined members / elements are omitted).
+(I) spec/QStringifyImpl.tla: the writers (stringifyObject / Array / Value) on the representation - dead slots, Undefined elements,
+    pointers (also to Undefined), the last-comma patch after both kinds of previous stream content; TLC: the tokens are the canonical
+    text of the abstract tree for every container of <= 3 (thorough 4) entries; 3 variants rejected (own-type = before 6202e25).
+(B) spec -> code (E2): every state of the model (<= 2, thorough <= 3 entries) is rebuilt through the public API and stringified; the
+    text must be the model's tokens.
 (B) code -> spec: random trees built through the public Value API (removed members, Undefined slots, members with Undefined
     value, empty containers, keys and strings with NUL, controls, quote, backslash, slash, DEL, non-ASCII, 64-bit extremes,
     reals k/2) are stringified (precision 17, into a non-empty stream), parsed back and stringified again; TLC judges every
@@ -13,9 +18,47 @@ sys.path.insert(0, os.path.join(os.path.dirname(os.path.abspath(__file__)), ".."
 import vf, jsoncommon as J
 
 
+def model_stage(c, asan):
+    """(I) QStringifyImpl: the writers on the representation (dead slots, Undefined elements, pointers, the last-comma patch after both kinds
+    of previous stream content) = the canonical text of the abstract tree, for every container of the model; three variants rejected;
+    (E2) every state of the model is rebuilt through the public API and the engine's text must be the model's tokens"""
+    import json
+    r = c.tlc("QStringifyImpl", "QStringifyImpl_current4" if c.thorough else "QStringifyImpl_current", timeout=3000, xmx="16g")
+    c.expect_holds(r, "QStringifyImpl: the writers produce the canonical text of the abstract tree")
+    c.stage("model", distinct_states=r.distinct)
+    for cfg in ("QStringifyImpl_own-type", "QStringifyImpl_comma-first", "QStringifyImpl_always-patch"):
+        r = c.tlc("QStringifyImpl", cfg, timeout=900, workers=4)
+        if not r.violated:
+            raise vf.MachineryError("%s: the earlier / mutated writer is not rejected" % cfg)
+    r = c.tlc("QStringifyImpl", "QStringifyImpl_export3" if c.thorough else "QStringifyImpl_export2", timeout=3000, xmx="16g", workers=4)
+    vecs = r.vecs("SV")
+    if len(vecs) < 100:
+        raise vf.MachineryError("QStringifyImpl export: only %d states exported" % len(vecs))
+    tok = lambda t: '"%s"' % t if t.startswith("k") else ("1" if t == "s" else t)
+    inp = os.path.join(c.out, "sreplay.txt")
+    with open(inp, "w") as f:
+        for v in vecs:
+            f.write("%s\t%s\t%s\n" % (json.dumps(v["tree"], separators=(",", ":")), "".join(v["before"]), "".join(tok(t) for t in v["tokens"])))
+    outp = os.path.join(c.out, "sreplay.ndjson")
+    rc, out, err = c.run([asan, "sreplay", inp, outp], timeout=1200)
+    if c.harness_ok("stringify-replay", rc, out, err):
+        n = 0
+        for ln in out.splitlines():
+            if ln.startswith("MISMATCH"):
+                c.violation("stringify replay " + ln[:300], {"kind": "replay", "line": ln, "input": inp})
+            if ln.startswith("STATES"):
+                n = int(ln.split()[1])
+                bad = int(ln.split()[3])
+                c.count(n_eval=n, validated=n - bad)
+        if n != len(vecs):
+            raise vf.MachineryError("stringify replay: %d of %d states replayed" % (n, len(vecs)))
+        c.stage("replay", states=len(vecs))
+
+
 def main():
     c = vf.Check("C08")
     (asan,) = c.build("h_json.asan")
+    model_stage(c, asan)
     p, ok = J.run_family(c, asan, "stringify", ["stringify", str(c.seed), "400000" if c.thorough else "15000"])
     if ok:
         evs = vf.read_ndjson(p)
